@@ -21,6 +21,10 @@ rule("C03.b", "per row letter the constraint uses the documented relation (U <=,
               "right-hand side are subset by the same row mask", floor=8)
 rule("C01.c", "nodal rows (letter N) are translated as equalities by every interface", floor=2)
 rule("C03.c", "variable bounds reach the solver in the right direction; objective sign and optimisation direction agree", floor=4)
+rule("C03.k", "rows of a mapping that come from assets without boolean variables carry NaN in the 'bool' column (frames are concatenated): "
+              "the flags are read by comparison with True (or after fillna(False)) - never through a bare cast astype(bool) / bool(), for which NaN "
+              "is True: continuous variables would be declared boolean (restricted to {0, 1}) and success reported for a point that is not optimal",
+     floor=1, props=["C03", "C15"])
 rule("C18.d", "the duals that are reported belong to the objective -c'x as stated: the objective given to the solver is not re-scaled - or every "
               "dual value is scaled back with the same factor (the value is; a dual of a problem whose objective was divided by k is the "
               "marginal value divided by k)", floor=1)
@@ -252,7 +256,7 @@ def _stmts_in(body):
     return list(au.walk_stmts(body))
 
 
-@analysis("translation", ["C03.a", "C03.b", "C01.c", "C03.c", "C03.d", "C03.e", "C03.i", "C03.j", "C14.m", "C18.d"])
+@analysis("translation", ["C03.a", "C03.b", "C01.c", "C03.c", "C03.d", "C03.e", "C03.i", "C03.j", "C14.m", "C18.d", "C03.k"])
 def run(ctx):
     p = ctx.p
     opt = p.cls("OptimProblem").methods.get("optimize")
@@ -546,6 +550,45 @@ def run(ctx):
                            "the returned vector violates bounds and rows, its value is not -c'x and the reported nodal balance is off (fuel for "
                            "on = 0.15 is delivered, the report says 0)" % ", ".join(sorted(work)), node=n,
                            key="flags are read from the working copy: %s" % au.short(base, 30))
+
+    # ================================================================== C03.k NaN is not a flag
+    n_k = 0
+    for fn2 in sorted(p.all_functions(), key=lambda f: f.qualname):
+        for st in au.walk_stmts(fn2.body):
+            for n in au.walk_own(st):
+                if not (isinstance(n, ast.Subscript) and au.const_str(n.slice) == "bool" and isinstance(n.ctx, ast.Load)):
+                    continue
+                # the chain of method calls / attribute reads applied to the column
+                cur, chain = n, []
+                while True:
+                    par = p.parent(cur)
+                    if isinstance(par, ast.Attribute) and par.value is cur:
+                        chain.append(par.attr)
+                        cur = par
+                    elif isinstance(par, ast.Call) and par.func is cur:
+                        chain[-1] = (chain[-1], par)
+                        cur = par
+                    else:
+                        break
+                par = p.parent(cur)
+                n_k += 1
+                cast = None
+                filled = False
+                for c in chain:
+                    nm, call = (c if isinstance(c, tuple) else (c, None))
+                    if nm in ("fillna",):
+                        filled = True
+                    if nm == "astype" and call is not None and call.args and au.U(call.args[0]) in ("bool", "'bool'", "np.bool_") and not filled:
+                        cast = call
+                if isinstance(par, ast.Call) and isinstance(par.func, ast.Name) and par.func.id == "bool":
+                    cast = par
+                ctx.ob("C03.k", fn2, au.short(cur, 70), cast is None,
+                       "the 'bool' column is cast with %s: rows of assets that have no boolean variables carry NaN there (the column is of type object "
+                       "after frames were concatenated), and NaN casts to True - every variable of those assets is treated as boolean (declared "
+                       "integer for the solver, or rounded / pinned as one): success is reported for a point that is not optimal for the assembled "
+                       "problem (value -11 where 252 is feasible)" % (au.short(cast, 30) if cast is not None else ""), node=n,
+                       ok_detail="compared / used as a mask without a bare cast")
+    ctx.require(n_k >= 1, "no read of a 'bool' column found", rules=["C03.k"])
 
     # ================================================================== C18.d duals of a re-scaled objective
     objs = [st for st in _stmts_in(opt.body) if isinstance(st, ast.Assign) and isinstance(st.targets[0], ast.Name)
